@@ -35,7 +35,7 @@ func (*watchEng) Cases(thorough bool) int {
 }
 
 func (*watchEng) Rule() string {
-	return "random history configs (initCap 1..6, maxCap>=initCap, gap<initCap), writes to 2 kinds x 3 ids, up to 4 watchers (single/kind/aggregated; bootstrap, bootstrap-bookmark, tail, resume from delivered or arbitrary bookmarks, label selector, channel buffer 0..2), random recv; non-trivial = the ring of some kind wrapped (more writes than its initial capacity) and some watcher received >= 3 deliveries and an Errored or invalid-bookmark outcome or a resumed watch occurred; distinct by hash of the op lines"
+	return "random history configs (initCap 1..6, maxCap>=initCap, gap<initCap), writes to 2 kinds x 3 ids, up to 4 watchers (single/kind/aggregated; bootstrap, bootstrap-bookmark, tail, resume from bookmarks drawn half of the time from the exact edges of the retained window [the generator tracks write position and grown capacity per kind: one before / at / after writePos-capacity+gap, writePos-1, writePos, writePos+1, -2, -1, 0] and otherwise around it, malformed / foreign / over-long / doubled bookmarks, label selector, channel buffer 0..2), random recv; two structured families: `lag` (readers of every flavour established before or after the ring grows, stalled until they lag by capacity-1 / capacity / capacity+1 events of the capacity in force, then released) and `edges` (resumption of every flavour from every edge of the window in every byte-level variant, with bootstrap-bookmark and tail combinations); non-trivial = the ring of some kind wrapped (more writes than its initial capacity) and some watcher received >= 3 deliveries and an Errored or invalid-bookmark outcome or a resumed watch occurred; distinct by hash of the op lines"
 }
 
 func (*watchEng) NonTrivial(c Case, out []string) bool {
@@ -159,6 +159,13 @@ func (e *watchEng) Gen(r *Rand, thorough bool, idx int) Case {
 		opts = fmt.Sprintf("i%d", 108+r.Intn(8))
 	}
 
+	switch idx % 16 {
+	case 5, 13:
+		return e.genLag(r, idx)
+	case 9:
+		return e.genEdges(r, idx)
+	}
+
 	initcap, maxcap, gap = watchApplyOpts(opts)
 
 	if idx%16 == 15 {
@@ -215,8 +222,18 @@ func (e *watchEng) Gen(r *Rand, thorough bool, idx int) Case {
 	nextW := 1
 
 	var live []int
-	// positions written per type (to make plausible bookmarks)
+	// positions written per type and the capacity the ring of that type has grown to (to aim bookmarks at the
+	// exact edges of the retained window)
 	written := map[string]int{}
+	curCap := map[string]int{}
+	wrote := func(typ string) {
+		if curCap[typ] == 0 {
+			curCap[typ] = initcap
+		}
+
+		curCap[typ] = watchGrow(written[typ], curCap[typ], maxcap)
+		written[typ]++
+	}
 
 	for i := 0; i < n; i++ {
 		t := i + 1
@@ -249,11 +266,11 @@ func (e *watchEng) Gen(r *Rand, thorough bool, idx int) Case {
 			case !s.exists:
 				c.Ops = append(c.Ops, fmt.Sprintf("create t=%d ns=n1 typ=%s id=%s ver=undefined owner= phase=running fins= labels=%s c=0 u=0 spec=s%d as=", t, typ, id, lab, r.Intn(3)))
 				s.exists, s.ver, s.fins = true, 1, ""
-				written[typ]++
+				wrote(typ)
 			case r.Chance(1, 5) && s.fins == "":
 				c.Ops = append(c.Ops, fmt.Sprintf("destroy t=%d ns=n1 typ=%s id=%s as=", t, typ, id))
 				s.exists = false
-				written[typ]++
+				wrote(typ)
 			default:
 				ver := s.ver
 				if r.Chance(1, 10) {
@@ -270,7 +287,7 @@ func (e *watchEng) Gen(r *Rand, thorough bool, idx int) Case {
 				if ver == s.ver {
 					s.ver++
 					s.fins = fins
-					written[typ]++
+					wrote(typ)
 				}
 			}
 		case x < 60 && len(live) < 4: // start a watcher
@@ -300,28 +317,22 @@ func (e *watchEng) Gen(r *Rand, thorough bool, idx int) Case {
 			}
 
 			if r.Chance(1, 3) {
-				// bookmark: mostly plausible positions around the retained window
+				// bookmark: mostly plausible positions around the retained window, half of the time one of its exact edges
 				pos := written[typ] - 1 - r.Intn(initcap+3)
 				if r.Chance(1, 6) {
 					pos = written[typ] + r.Intn(2)
 				}
 
-				bm := append([]byte("COOKIE!!"), binary.BigEndian.AppendUint64(nil, uint64(int64(pos)))...)
-
-				switch r.Intn(16) {
-				case 0:
-					bm = bm[:Pick(r, []int{0, 8, 15})]
-				case 1:
-					bm = append(bm, 0)
-				case 2:
-					bm[r.Intn(8)] ^= byte(1 + r.Intn(255)) // foreign cookie
-				case 3:
-					for j := range bm[8:] {
-						bm[8+j] = byte(r.Next()) // arbitrary position bytes
+				if r.Chance(1, 2) {
+					cp := curCap[typ]
+					if cp == 0 {
+						cp = initcap
 					}
+
+					pos = Pick(r, watchEdges(written[typ], cp, gap))
 				}
 
-				op += fmt.Sprintf(" bm=%x", bm)
+				op += fmt.Sprintf(" bm=%x", watchBookmarkBytes(r, pos, r.Intn(16)))
 			}
 
 			op += fmt.Sprintf(" buf=%d", Pick(r, []int{0, 0, 1, 2}))
@@ -346,6 +357,220 @@ func (e *watchEng) Gen(r *Rand, thorough bool, idx int) Case {
 	}
 
 	return c
+}
+
+// watchGrow is publish's growth step: the capacity in force for the event published at position wp.
+func watchGrow(wp, capacity, maxcap int) int {
+	if wp == capacity && capacity < maxcap {
+		capacity *= 2
+		if capacity > maxcap {
+			capacity = maxcap
+		}
+	}
+
+	return capacity
+}
+
+// watchEdges lists the positions at and next to every edge of the bookmark acceptance window.
+func watchEdges(wp, capacity, gap int) []int {
+	lo := wp - capacity + gap
+
+	return []int{lo - 1, lo, lo + 1, wp - 2, wp - 1, wp, wp + 1, -2, -1, 0}
+}
+
+// watchBookmarkBytes builds the bytes of a bookmark for pos in one of the byte-level variants: 0 truncated,
+// 1 one trailing byte, 2 foreign cookie, 3 arbitrary position bytes, 4 trailing garbage, 5 two bookmarks
+// concatenated, anything else well-formed.
+func watchBookmarkBytes(r *Rand, pos int, variant int) []byte {
+	bm := append([]byte("COOKIE!!"), binary.BigEndian.AppendUint64(nil, uint64(int64(pos)))...)
+
+	switch variant {
+	case 0:
+		bm = bm[:Pick(r, []int{0, 8, 15})]
+	case 1:
+		bm = append(bm, 0)
+	case 2:
+		bm[r.Intn(8)] ^= byte(1 + r.Intn(255)) // foreign cookie
+	case 3:
+		for j := range bm[8:] {
+			bm[8+j] = byte(r.Next()) // arbitrary position bytes
+		}
+	case 4:
+		for j, n := 0, 1+r.Intn(9); j < n; j++ {
+			bm = append(bm, byte(r.Next()))
+		}
+	case 5:
+		bm = append(bm, bm...)
+	}
+
+	return bm
+}
+
+// watchScript builds the op lines of a structured case and keeps the exact shadow of one kind (T1): versions of
+// its resources, write position, capacity in force.
+type watchScript struct {
+	c                    Case
+	t                    int
+	initcap, maxcap, gap int
+	wp, capacity         int
+	ver                  map[string]int
+	nextW                int
+}
+
+func newWatchScript(r *Rand, idx int, family string) *watchScript {
+	initcap := 1 + r.Intn(4)
+	maxcap := Pick(r, []int{initcap, initcap, 2 * initcap, 4 * initcap, 3*initcap + 1})
+	gap := r.Intn(initcap)
+
+	if r.Chance(1, 3) {
+		gap = 0
+	}
+
+	return &watchScript{
+		c: Case{Header: fmt.Sprintf("# engine=watch flavour=inmem nsaware=0 initcap=%d maxcap=%d gap=%d bs=0 opts=i%d,m%d,g%d family=%s case=%d",
+			initcap, maxcap, gap, initcap, maxcap, gap, family, idx)},
+		t: 1, initcap: initcap, maxcap: maxcap, gap: gap, capacity: initcap, ver: map[string]int{}, nextW: 1,
+	}
+}
+
+func (ws *watchScript) add(op, rest string) {
+	ws.c.Ops = append(ws.c.Ops, fmt.Sprintf("%s t=%d %s", op, ws.t, rest))
+	ws.t++
+}
+
+// write commits one event of T1/id (create or update; a label that comes and goes so that a selector sees rewrites).
+func (ws *watchScript) write(r *Rand, id string) {
+	lab := ""
+	if r.Chance(1, 2) {
+		lab = "k1:v1"
+	}
+
+	if ws.ver[id] == 0 {
+		ws.add("create", fmt.Sprintf("ns=n1 typ=T1 id=%s ver=undefined owner= phase=running fins= labels=%s c=0 u=0 spec=s%d as=", id, lab, r.Intn(3)))
+	} else {
+		ws.add("update", fmt.Sprintf("ns=n1 typ=T1 id=%s ver=%d owner= phase=running fins= labels=%s c=0 u=0 spec=s%d as= exp=any", id, ws.ver[id], lab, r.Intn(3)))
+	}
+
+	ws.ver[id]++
+	ws.capacity = watchGrow(ws.wp, ws.capacity, ws.maxcap)
+	ws.wp++
+}
+
+func (ws *watchScript) start(rest string) int {
+	w := ws.nextW
+	ws.nextW++
+	ws.add("wstart", fmt.Sprintf("w=%d ns=n1 typ=T1 %s", w, rest))
+
+	return w
+}
+
+func (ws *watchScript) recv(w int) { ws.add("recv", fmt.Sprintf("w=%d", w)) }
+
+// genLag: readers of every flavour, established before or after the ring grows, are stalled behind one undelivered
+// event until they lag by exactly capacity-1 / capacity / capacity+1 events of the capacity then in force, and
+// released: the first must read on, the second must read the whole ring, the third must be errored — whatever
+// the capacity was when they were established.
+func (e *watchEng) genLag(r *Rand, idx int) Case {
+	ws := newWatchScript(r, idx, "lag")
+	ids := []string{"a", "b"}
+
+	for i, n := 0, r.Intn(2*ws.initcap+1); i < n; i++ {
+		ws.write(r, Pick(r, ids))
+	}
+
+	buf := Pick(r, []int{0, 0, 1})
+	watchers := []int{
+		ws.start(fmt.Sprintf("kind=kind buf=%d", buf)),
+		ws.start(fmt.Sprintf("kind=single id=a buf=%d", buf)),
+		ws.start(fmt.Sprintf("kind=agg buf=%d", buf)),
+		ws.start(fmt.Sprintf("kind=kind sel=k1:v1 buf=%d", buf)),
+	}
+
+	ws.recv(watchers[1]) // the initial event of the single watch
+
+	// the events every plain reader takes and then sits on (one in its hands, `buf` in the channel)
+	for i := 0; i <= buf; i++ {
+		ws.write(r, "a")
+	}
+
+	pos := ws.wp
+	target := Pick(r, []int{-1, 0, 0, 1})
+	occurrence := 1 + r.Intn(2)
+
+	for i := 0; i < 8*ws.maxcap+4; i++ {
+		ws.write(r, Pick(r, ids))
+
+		if (ws.wp-pos)-ws.capacity == target {
+			if occurrence--; occurrence == 0 {
+				break
+			}
+		}
+	}
+
+	for round := 0; round < 3+buf; round++ {
+		for _, w := range watchers {
+			ws.recv(w)
+		}
+	}
+
+	ws.write(r, "a")
+
+	for round := 0; round < 2; round++ {
+		for _, w := range watchers {
+			ws.recv(w)
+		}
+	}
+
+	ws.add("list", "ns=n1 typ=T1")
+
+	return ws.c
+}
+
+// genEdges: after a history that fills (and possibly grows and wraps) the ring, watches of every flavour are resumed
+// from the positions at and next to every edge of the acceptance window, in every byte-level variant of the
+// bookmark, alone and combined with bootstrap-bookmark; tail requests with bootstrap-bookmark in between.
+func (e *watchEng) genEdges(r *Rand, idx int) Case {
+	ws := newWatchScript(r, idx, "edges")
+	ids := []string{"a", "b"}
+
+	for i, n := 0, 1+r.Intn(3*ws.maxcap+2); i < n; i++ {
+		ws.write(r, Pick(r, ids))
+	}
+
+	for k := 0; k < 10; k++ {
+		flavour := Pick(r, []string{"kind=single id=a", "kind=kind", "kind=agg", "kind=kind sel=k1:v1"})
+		rest := flavour
+
+		if !strings.HasPrefix(flavour, "kind=single") && r.Chance(1, 2) {
+			rest += " bb=1"
+		}
+
+		if r.Chance(1, 5) {
+			rest += fmt.Sprintf(" tail=%d", 1+r.Intn(ws.capacity+1))
+		} else {
+			variant := 15
+			if r.Chance(1, 3) {
+				variant = r.Intn(6)
+			}
+
+			rest += fmt.Sprintf(" bm=%x", watchBookmarkBytes(r, Pick(r, watchEdges(ws.wp, ws.capacity, ws.gap)), variant))
+		}
+
+		w := ws.start(rest + fmt.Sprintf(" buf=%d", Pick(r, []int{0, 1, 2})))
+
+		for j := 0; j < 3; j++ {
+			ws.recv(w)
+		}
+
+		if r.Chance(1, 2) {
+			ws.write(r, Pick(r, ids))
+			ws.recv(w)
+		}
+
+		ws.add("wstop", fmt.Sprintf("w=%d", w))
+	}
+
+	return ws.c
 }
 
 var processCookie []byte
